@@ -308,6 +308,36 @@ def addDia (L Rm : Dia R) (s : R) : Dia R :=
   { rows := L.rows, cols := L.cols, diags := addDiaMerge s (L.diags.length + Rm.diags.length) L.diags Rm.diags }
 end diaAdd
 
+/-! ### `inner_dia`, `inner_op_dia`: inner products and matrix elements of states stored by diagonals -/
+section diaInner
+variable {R : Type} [Add R] [Mul R] [OfNat R 0]
+
+/-- "`left` was given as a ket": decided from the shapes, by the flag `scalar_is_ket` when everything is 1x1 -/
+def innerIsKet (leftRows n : Nat) (scalarIsKet : Bool) : Bool :=
+  if n = 1 then scalarIsKet else leftRows == n
+
+/-- the double loop of `inner_dia`.  A ket (n x 1) keeps row r on the diagonal of offset −r, at column 0; a bra
+(1 x n) keeps column c on the diagonal of offset c, at column c. -/
+def innerDiaCore (conj : R → R) (isKet : Bool) (left right : Dia R) : R :=
+  (right.diags.map fun dr => (left.diags.map fun dl =>
+    if isKet then (if dl.1 - dr.1 = 0 then conj (dl.2 0) * dr.2 0 else 0)
+    else (if dl.1 + dr.1 = 0 then dl.2 dl.1.toNat * dr.2 0 else 0)).sum).sum
+
+def innerDia (conj : R → R) (left right : Dia R) (scalarIsKet : Bool) : R :=
+  innerDiaCore conj (innerIsKet left.rows right.rows scalarIsKet) left right
+
+/-- the triple loop of `inner_op_dia`: the entry of `op` in row r, column c sits on the diagonal of offset c − r at
+column c = −(offset of the ket's diagonal) -/
+def innerOpDiaCore (conj : R → R) (isKet : Bool) (left op right : Dia R) : R :=
+  (right.diags.map fun dr => (left.diags.map fun dl => (op.diags.map fun dop =>
+    if (if isKet then -dl.1 else dl.1) + dr.1 + dop.1 = 0 then
+      (if isKet then conj (dl.2 0) else dl.2 dl.1.toNat) * dr.2 0 * dop.2 (-dr.1).toNat
+    else 0).sum).sum).sum
+
+def innerOpDia (conj : R → R) (left op right : Dia R) (scalarIsKet : Bool) : R :=
+  innerOpDiaCore conj (innerIsKet left.rows op.rows scalarIsKet) left op right
+end diaInner
+
 /-! ### the dispatcher: a specialisation built from a registered one and conversions -/
 
 /-- converters between formats preserve the matrix; `Repr f` is the carrier of format `f` -/
